@@ -121,9 +121,12 @@ def variants(line, rng):
 # includes multi-byte chars (so that fixed byte cuts fall inside a char) and chars whose UTF-8 bytes alias the
 # special bytes under a 7-bit mask: Я = D0 AF (AF & 7F = '/'), ° = C2 B0, ± = C2 B1 ('0', '1'), ï = C3 AF
 WORD_ALPHA = [b"/", b".", b"a", b"a", b"~", b"0", b"1", b"}", b":", b"~0", b"~1", b".", b"\xc3\xa9", b"\xe6\x97\xa5",
-              b"\xd0\xaf", b"\xc2\xb0", b"\xc2\xb1"]
+              b"\xd0\xaf", b"\xc2\xb0", b"\xc2\xb1",
+              # code points whose LOW BYTE aliases a special ASCII byte (what `c as u8` keeps): U+0130 İ / U+0131 ı ('0','1'),
+              # U+012F į ('/'), U+017E ž ('~'), U+4E30 丰 ('0'), U+1F631 😱 ('1')
+              "\u0130".encode(), "\u0131".encode(), "\u012f".encode(), "\u017e".encode(), "\u4e30".encode(), "\U0001f631".encode()]
 PTR_ALPHA = [b"/", b"/", b".", b"a", b"a", b"~0", b"~1", b"0", b"-", b"}", b"\xef\xbd\x9e", b"\xf0\x9f\x98\x80",
-             b"\xd0\xaf", b"\xc3\xaf", b"\xc2\xb1"]
+             b"\xd0\xaf", b"\xc3\xaf", b"\xc2\xb1", "\u0130".encode(), "\u0131".encode(), "\u012f".encode(), "\u017e".encode()]
 
 def _len(rng, lo, hi):
     # mostly word scale (8..24), one in five cache-line / SIMD-block scale (25..140)
@@ -195,6 +198,8 @@ def wordscale(prop, lines, rng, n):
     return out
 
 TREE_OPS = {"resolve": (2, 3, None), "resolve_mut": (2, 3, None), "write": (2, 3, 4), "assign": (2, 3, 4), "delete": (2, 3, None)}
+PZERO = "#d0000000000000000"                    # 0.0
+NZERO = "#d8000000000000000"                    # -0.0 (== 0.0, but a different value)
 FLOAT = "#d3ff8000000000000"                    # 1.5
 BIGU = "#u18446744073709551615"                 # u64::MAX (json only)
 DATE = "#T" + b"1979-05-27T07:32:00Z".hex()     # toml only
@@ -270,6 +275,14 @@ def tree_variants(line, rng, prop):
         for tok in [b"256", b"299", b"999", b"18446744073709551616"] + big:
             if rng.random() < 0.5 or tok in big:
                 q = list(parts); q[pi] = "x" + (pb[:pb.rfind(b"/")] + b"/" + tok if b"/" in pb else b"/" + tok).hex(); out.append(" ".join(q))
+        # IEEE signed zero: `0.0 == -0.0`, so an implementation that compares before it replaces keeps the old one
+        if vi is not None and vi < len(parts) and "#t" in parts[di]:
+            q = list(parts)
+            q[di] = re.sub(r"#t(?=[,\]}]|$)", PZERO, q[di]); q[vi] = NZERO
+            out.append(" ".join(q))
+            q = list(parts)
+            q[di] = re.sub(r"#t(?=[,\]}]|$)", NZERO, q[di]); q[vi] = "[" + PZERO + "]" if rng.random() < 0.3 else PZERO
+            out.append(" ".join(q))
         # unusual scalar kinds where a boolean stood (C09 keeps to the common domain: floats only)
         if "#t" in line:
             if prop == "C09":
@@ -415,6 +428,12 @@ def augment(prop, lines, seed, budget=40000, mined=None):
             q[1] = _hex(b"".join(b"/" + t + b"a" * k for t in p0.split(b"/")[1:]))
             v = " ".join(q)
             if v not in seen: seen.add(v); out.append(v)
+    # recursion instead of iteration: a pointer of several hundred thousand empty tokens, sliced near its end
+    if any(l.startswith("get ") for l in lines):
+        n = 300000
+        big = _hex(b"/" * n)
+        for r in (f"rf@{n - 1}", f"bb@in:{n - 1}@un", f"rt@{n - 1}", f"r@{n - 2}@{n}", f"tok@{n - 1}"):
+            out.append(f"get {big} {r}")
     for v in wordscale(prop, lines, rng, budget // 3):
         if v not in seen:
             seen.add(v); out.append(v)
